@@ -87,7 +87,7 @@ def rand_config(rnd, kind=None):
         inferral=rnd.random() < 0.4, symmetry=rnd.random() < 0.3 and len(alpha) == 2,
         iterative=False, expand_verified=rnd.random() < 0.15, smallest=False,
         factory=rnd.choice([None, None, None, "plain", "foreign"]), prefver=None, reverse=True, reverse_needed=False,
-        perc=rnd.choice([100, 50, 20, 5, 1]), seed=rnd.randrange(10**6), prefix="", rot=False, sep=None,
+        perc=rnd.choice([100, 50, 20, 5, 1]), seed=rnd.randrange(10**6), prefix="", rot=False, sep=None, packver=None,
     )
     r = rnd.random()
     if kind == "iterative" or (kind is None and r < 0.12 and db != "RuleDBForest"):
@@ -101,6 +101,10 @@ def rand_config(rnd, kind=None):
     if kind == "reverse_needed":
         cfg.update(db="RuleDBForest", reverse_needed=True, prefix=rnd.choice(["b", "a"]) if len(alpha) > 1 else "a",
                    factory=None, inferral=False, symmetry=False, iterative=False, smallest=False, prefver=None)
+    if kind == "packver":
+        pv = rnd.choice([["a"], ["b"], ["a", "b"], ["ab"]])
+        cfg["packver"] = [p for p in pv if set(p) <= set(alpha)] or None
+        cfg["prefver"] = None
     if kind == "rot":
         cfg.update(rot=True, alpha=rnd.choice(["ab", "abc", "abc"]), symmetry=False)
         cfg["patterns"] = upword.rand_patterns(rnd, cfg["alpha"], 3, 2)
@@ -126,7 +130,7 @@ def build(cfg):
     pack = make_pack(
         cfg["mode"], cfg["inferral"], cfg["symmetry"], cfg["iterative"], cfg["factory"], cfg["prefver"],
         known=([""] if cfg["reverse_needed"] else (len(cfg["alpha"]) + 1 if cfg["sep"] == "reverse" else None)),
-        reverse_needed=cfg["reverse_needed"], rot=cfg["rot"], sep=cfg["sep"],
+        reverse_needed=cfg["reverse_needed"], rot=cfg["rot"], sep=cfg["sep"], packver=cfg.get("packver"),
     )
     root = PW(cfg["prefix"], cfg["patterns"], cfg["alpha"], False, cfg["params"])
     if cfg["db"] == "RuleDBForest":
@@ -302,6 +306,8 @@ def cfg_tags(cfg):
         tags.append("prefver")
     if cfg["sep"]:
         tags.append("sep:" + cfg["sep"])
+    if cfg.get("packver"):
+        tags.append("packver")
     if cfg["db"] == "RuleDBForest" and not cfg["reverse"]:
         tags.append("noreverse")
     tags.append(f"params={len(cfg['params'])}")
